@@ -184,6 +184,9 @@ def invertNorm : CExpr τ → Option (CExpr τ)
   | .resLevel r op v => some (.resLevel r (match op with | 0 => 4 | 4 => 0 | 5 => 1 | 1 => 5 | 2 => 3 | _ => 2) v)
   | .tracked2 x op y => some (.tracked2 x (match op with | 0 => 4 | 4 => 0 | 5 => 1 | 1 => 5 | 2 => 3 | _ => 2) y)
   | .ref _ => none
+  | .delay _ => none
+  | .andOp .. => none
+  | .orOp .. => none
 def invertNorms : List (CExpr τ) → Option (List (CExpr τ))
   | [] => some []
   | c :: cs => (invertNorm c).bind (fun c' => (invertNorms cs).map (c' :: ·))
@@ -196,6 +199,8 @@ def normExpr : CExpr τ → Option (CExpr τ)
   | .inv c => (normExpr c).bind invertNorm
   | .all cs => (normExprs cs).map .all
   | .any cs => (normExprs cs).map .any
+  | .andOp a b => (normExpr a).bind (fun a' => (normExpr b).map (fun b' => .andOp a' b'))
+  | .orOp a b => (normExpr a).bind (fun a' => (normExpr b).map (fun b' => .orOp a' b'))
   | c => some c
 def normExprs : List (CExpr τ) → Option (List (CExpr τ))
   | [] => some []
@@ -238,6 +243,19 @@ def buildNorm (w : World τ) : CExpr τ → Option (World τ × CondId)
     let (w, c) := w.newCond (.cmp2 x op y)
     let w := { w with tracked := w.tracked.modify y (fun t => { t with listeners := t.listeners ++ [c] }) }
     some ({ w with tracked := w.tracked.modify x (fun t => if t.listeners.contains c then t else { t with listeners := t.listeners ++ [c] }) }, c)
+  | .delay d => some (w.newCond (.delay d))
+  -- `a & b`: `All.__and__` spreads the children of an `All` on either side, `Condition.__and__` keeps a non-`All` left
+  -- operand as it is; the result is always a new object (condition.py:67-75, 139-142)
+  | .andOp a b =>
+    (buildNorm w a).bind (fun (p : World τ × CondId) => (buildNorm p.1 b).map (fun (q : World τ × CondId) =>
+      let ka := match (q.1.cond p.2).kind with | .all cs => cs | _ => [p.2]
+      let kb := match (q.1.cond q.2).kind with | .all cs => cs | _ => [q.2]
+      q.1.newCond (.all (ka ++ kb))))
+  | .orOp a b =>
+    (buildNorm w a).bind (fun (p : World τ × CondId) => (buildNorm p.1 b).map (fun (q : World τ × CondId) =>
+      let ka := match (q.1.cond p.2).kind with | .any cs => cs | _ => [p.2]
+      let kb := match (q.1.cond q.2).kind with | .any cs => cs | _ => [q.2]
+      q.1.newCond (.any (ka ++ kb))))
 def buildNorms (w : World τ) : List (CExpr τ) → Option (World τ × List CondId)
   | [] => some (w, [])
   | c :: cs => (buildNorm w c).bind (fun (w, i) => (buildNorms w cs).map (fun (w, is) => (w, i :: is)))
@@ -269,6 +287,9 @@ def evalSpec (w : World τ) : CExpr τ → Bool
   | .ref n => match lookup w.condNames n with
     | some c => w.eval c
     | none => false
+  | .delay _ => true
+  | .andOp a b => evalSpec w a && evalSpec w b
+  | .orOp a b => evalSpec w a || evalSpec w b
 def evalSpecAll (w : World τ) : List (CExpr τ) → Bool
   | [] => true
   | c :: cs => evalSpec w c && evalSpecAll w cs
